@@ -59,6 +59,7 @@ type DocSpec struct {
 
 	TextOps  int  `json:"text_ops"`  // 0 Tj only, 1 TJ arrays, 2 mixed incl. Tm / T* positioning
 	FormXObj bool `json:"form_xobj"` // some lines live in a Form XObject
+	Superscripts bool `json:"superscripts,omitempty"` // short raised pieces of text: baselines closer together than half a glyph height
 	FormNest int  `json:"form_nest,omitempty"` // that form invokes this many forms of its own, one line each
 
 	BlankPages    bool `json:"blank_pages,omitempty"` // some pages show no text at all
@@ -724,6 +725,15 @@ func (d *docState) makeLines(pageIdx int, r *sim.Rand) []Line {
 			ln.X = float64(sim.Pick(r, []int{90, 108, 144}))
 		}
 		lines = append(lines, ln)
+		if sp.Superscripts && ln.Size <= 12 && r.Pct(35) {
+			// a raised figure to the right of the line (an exponent, a footnote mark): a baseline
+			// of its own, a third of the type size above the line's
+			mark := strconv.Itoa(2 + r.Intn(8))
+			if !d.fonts[fi].HasSpace() {
+				mark = string(sim.Pick(r, d.fonts[fi].Alphabet)) // fonts with an alphabet of their own
+			}
+			lines = append(lines, Line{Font: fi, Text: mark, X: 430, Y: y + ln.Size*0.35, Size: ln.Size * 0.6})
+		}
 		y -= ln.Size * 1.5
 	}
 	return lines
